@@ -541,6 +541,9 @@ func c51jwtRun(e *c51env, s *c51jsetup) {
 									if host == "b.example.org" && product != "tworules" && product != "hostonly" {
 										continue
 									}
+									if _, cov := s.cover(product, host); !cov && (exp.kind|nbf.kind|iat.kind) != 0 {
+										continue // uncovered requests: the time-free subset is enough
+									}
 									id := vk.Key("jwt", product, host, a.name, m.name, c51sigNames[form], "exp="+exp.name, "nbf="+nbf.name, "iat="+iat.name, "canonical")
 									if !r.Case(id) {
 										continue
